@@ -221,6 +221,10 @@ func build(c *Rec) ([]byte, []byte) {
 	case 7:
 		outer = append(outer, kv{"announce", bstr(trackers[1])}, kv{"comment", bstr("hello")}, kv{"creation date", bint(1700000000)},
 			kv{"unknown", "l" + bint(1) + "d1:q" + bint(2) + "ee"})
+	case 8: // the first tier is empty, the trackers are in the later ones
+		outer = append(outer, kv{"announce-list", "l" + "le" + list(trackers[:1]) + list(trackers[1:2]) + "e"})
+	case 9: // the first tier holds only a URL that cannot be parsed
+		outer = append(outer, kv{"announce-list", "l" + list([]string{"http://bad host/%zz"}) + list(trackers[:2]) + "e"})
 	}
 	return []byte(dict(outer, c.Order == "reversed")), []byte(raw)
 }
@@ -411,7 +415,9 @@ func Handle(in []byte) any {
 	// what the first read learnt must be what the input says
 	wantTiers := map[int]string{0: "[]", 1: "[[" + trackers[0] + "]]", 2: "[[" + trackers[0] + " " + trackers[1] + "]]",
 		3: "[[" + trackers[0] + "] [" + trackers[1] + " " + trackers[2] + "]]", 4: "[]", 5: "[]",
-		6: "[[" + trackers[0] + " " + trackers[1] + "]]", 7: "[[" + trackers[1] + "]]"}[c.C.Outer]
+		6: "[[" + trackers[0] + " " + trackers[1] + "]]", 7: "[[" + trackers[1] + "]]",
+		// an empty tier, or one whose only URL cannot be parsed, keeps its place (and is empty)
+		8: "[[] [" + trackers[0] + "] [" + trackers[1] + "]]", 9: "[[] [" + trackers[0] + " " + trackers[1] + "]]"}[c.C.Outer]
 	if fmt.Sprint(tiers(t)) != wantTiers {
 		viol("trackers-read", fmt.Sprintf("trackers read as %v, the file says %s", tiers(t), wantTiers))
 	}
